@@ -218,14 +218,19 @@ class Exec(object):
             out.append('T%d %s %s' % (t, lab[0], ' '.join(s.split())[:70]) + (' ' + str(lab[2]) if len(lab) > 2 and lab[2] else ''))
         return out
 
+def _held_lock():
+    lk = threading.Lock()
+    lk.acquire()
+    return lk
+
 class Scheduler(object):
     def __init__(self, world, bodies, choices, visible, observe):
         self.world, self.bodies, self.choices = world, bodies, list(choices)
         self.visible, self.observe = visible, observe
         n = len(bodies)
         self.n = n
-        self.sems = [threading.Semaphore(0) for _ in range(n)]
-        self.main = threading.Semaphore(0)
+        self.sems = [_held_lock() for _ in range(n)]      # binary semaphores: raw locks, initially taken
+        self.main = _held_lock()
         self.done = [False] * n
         self.pending = [None] * n          # label of the operation each parked thread is about to perform
         self.wants = [None] * n            # SchedLock it needs, or None
